@@ -259,6 +259,19 @@ class Interp:
             k0, k1 = "after " + c.block[0], "after " + c.block[1]
             body = body[keys.index(k0):keys.index(k1) + 1]
             args = list(c.params)
+        if c.block is None:
+            # a parameter the contract (and hence the input generator) does not know: the signature changed.  A constant
+            # default value is what every existing caller gets; anything else is outside what can be run here
+            pos = fs.node.args.posonlyargs + fs.node.args.args
+            dflt = dict(zip([p_.arg for p_ in pos[len(pos) - len(fs.node.args.defaults):]], fs.node.args.defaults))
+            for a in args:
+                if a not in inputs:
+                    d_ = dflt.get(a)
+                    if isinstance(d_, ast.Constant):
+                        inputs = dict(inputs)
+                        inputs[a] = d_.value
+                    else:
+                        raise Unsupported(f"parameter {a} of {qualname} is not known to the contract")
         env = {a: inputs[a] for a in args}
         for g, gt in c.ghosts.items():
             if g in inputs:
